@@ -159,7 +159,10 @@ Theorem C19_ucdao_reachable_roundtrip :
 Proof. exact (fun p ops => conj (dao_run_wf ops _ (dao_wf_empty p)) (dao_reachable_roundtrip p ops)). Qed.
 Print Assumptions C19_ucdao_reachable_roundtrip.
 
-(** ** EVM: code and storage of every account, parameters *)
+(** ** EVM: code and storage of every account, parameters.
+    [auth] maps every address of the auth module to (account kind, code hash); ExportGenesis
+    ([evm_export]) visits the kinds that implement the interface EthAccountI: the plain
+    EthAccount and the ClawbackVestingAccount. *)
 Theorem C19_evm_export_init_export :
   forall hash valid norm, (forall x y, hash x = hash y -> x = y) ->
   forall auth s, evm_wf hash valid norm auth s ->
@@ -174,14 +177,108 @@ Theorem C19_evm_query_equiv :
 Proof. exact evm_query_equiv. Qed.
 Print Assumptions C19_evm_query_equiv.
 
+(** the invariant: re-established by InitGenesis, preserved by every operation -- contract creation
+    onto a fresh address or onto an account of any kind that is already there (a clawback vesting
+    account created ahead of the deployment), account creation of every kind, conversion into a
+    vesting account and back, SSTORE, self-destruct, parameter change; [op_ok]: SSTORE happens at
+    accounts that implement EthAccountI (code only runs where a code hash can be recorded) *)
 Theorem C19_evm_invariant :
   forall hash valid norm, (forall x y, hash x = hash y -> x = y) -> (forall p, norm (norm p) = norm p) ->
     (forall auth s s', evm_wf hash valid norm auth s ->
         evm_init hash valid norm auth (evm_export auth s) = Some s' -> evm_wf hash valid norm auth s') /\
-    (forall auth s o, evm_wf hash valid norm auth s ->
+    (forall auth s o, evm_wf hash valid norm auth s -> op_ok auth o = true ->
         let '(auth', s') := evm_step hash valid norm (auth, s) o in evm_wf hash valid norm auth' s').
 Proof.
   exact (fun hash valid norm Hinj Hidem =>
            conj (evm_init_wf_of_export hash valid norm Hinj) (evm_step_wf hash valid norm Hidem)).
 Qed.
 Print Assumptions C19_evm_invariant.
+
+(** init (export s) = s on the EVM projection, for ALL states: the parameters, the storage of every
+    address and the code of every address come back, whatever kind of account sits there (eth and
+    clawback vesting accounts carry code; base and module accounts have none before and after) *)
+Theorem C19_evm_init_export_projection :
+  forall hash valid norm, (forall x y, hash x = hash y -> x = y) ->
+  forall auth s, evm_wf hash valid norm auth s ->
+    exists s', evm_init hash valid norm auth (evm_export auth s) = Some s' /\
+      ev_params s' = ev_params s /\
+      (forall a, stor s' a = stor s a) /\
+      (forall a, code_at auth s' a = code_at auth s a).
+Proof. exact evm_init_export_projection. Qed.
+Print Assumptions C19_evm_init_export_projection.
+
+(** the same for ANY selection [sel] of the account kinds that ExportGenesis visits, under exactly two
+    hypotheses: it selects only kinds that InitGenesis accepts ([sel_sound]) and it selects every
+    account that holds code or storage ([sel_covers]) *)
+Theorem C19_evm_selection_export_init_export :
+  forall hash valid norm, (forall x y, hash x = hash y -> x = y) ->
+  forall sel auth s, sel_sound sel -> sel_covers sel auth s -> evm_wf hash valid norm auth s ->
+    evm_export_sel sel auth <$> evm_init hash valid norm auth (evm_export_sel sel auth s)
+      = Some (evm_export_sel sel auth s).
+Proof. exact evm_sel_export_init_export. Qed.
+Print Assumptions C19_evm_selection_export_init_export.
+
+Theorem C19_evm_selection_query_equiv :
+  forall hash valid norm, (forall x y, hash x = hash y -> x = y) ->
+  forall sel auth s q, sel_sound sel -> sel_covers sel auth s -> evm_wf hash valid norm auth s ->
+    evm_ask auth q <$> evm_init hash valid norm auth (evm_export_sel sel auth s) = Some (evm_ask auth q s).
+Proof. exact evm_sel_query_equiv. Qed.
+Print Assumptions C19_evm_selection_query_equiv.
+
+(** the selection by the interface satisfies both hypotheses in every state *)
+Theorem C19_evm_interface_selection_covers :
+  sel_sound implements_eth /\ forall auth s, sel_covers implements_eth auth s.
+Proof. exact (conj implements_sound implements_covers). Qed.
+Print Assumptions C19_evm_interface_selection_covers.
+
+(** every state reached from the empty one by [op_ok] operations satisfies the invariant *)
+Theorem C19_evm_reachable_invariant :
+  forall hash valid norm, (forall p, norm (norm p) = norm p) ->
+  forall p ops, valid p = true -> norm p = p ->
+    run_ok hash valid norm (∅, mk_evm p ∅ ∅) ops = true ->
+    let r := fold_left (evm_step hash valid norm) ops (∅, mk_evm p ∅ ∅) in evm_wf hash valid norm r.1 r.2.
+Proof.
+  exact (fun hash valid norm Hidem p ops Hv Hn Hok =>
+           evm_run_wf hash valid norm Hidem ops (∅, mk_evm p ∅ ∅) (evm_wf_empty hash valid norm p Hv Hn) Hok).
+Qed.
+Print Assumptions C19_evm_reachable_invariant.
+
+(** The hypothesis about the selection is exactly what matters: selecting by the concrete type
+    *EthAccount is sound but does not cover the (reachable, invariant-satisfying) witness state
+    [toy_run] in which the clawback vesting account 7 holds the contract 66 and the slot 0 -> 42
+    (vesting account created first, contract deployed onto its address afterwards): its entry is
+    missing from the exported document, and after the re-import the code and the storage of 7 are
+    gone, while the selection of the code keeps both. *)
+Theorem C19_evm_concrete_selection_refuted :
+  let v := fun _ : N => true in let nm := fun p : N => p in
+  let auth := toy_run.1 in let s := toy_run.2 in
+  evm_wf toy_hash v nm auth s /\
+  sel_sound concrete_eth /\ ~ sel_covers concrete_eth auth s /\
+  auth !! 7%N = Some (KClawback, 1066%N) /\
+  evm_export_sel concrete_eth auth s = mk_evmg 4 [mk_ea 2 77 [(3, 0); (5, 9)]; mk_ea 9 0 []]%N /\
+  evm_ask auth (EvQCode 7) s = EvAN 66 /\
+  evm_ask auth (EvQStorage 7 0) s = EvAO (Some 42%N) /\
+  (evm_ask auth (EvQCode 7) <$> evm_init toy_hash v nm auth (evm_export_sel concrete_eth auth s)) = Some (EvAN 0) /\
+  (evm_ask auth (EvQStorage 7 0) <$> evm_init toy_hash v nm auth (evm_export_sel concrete_eth auth s)) = Some (EvAO None) /\
+  (evm_ask auth (EvQCode 7) <$> evm_init toy_hash v nm auth (evm_export auth s)) = Some (EvAN 66) /\
+  (evm_ask auth (EvQStorage 7 0) <$> evm_init toy_hash v nm auth (evm_export auth s)) = Some (EvAO (Some 42%N)).
+Proof. exact evm_concrete_selection_refuted_lemma. Qed.
+Print Assumptions C19_evm_concrete_selection_refuted.
+
+(** Outside the invariant (a candidate finding, reproduced on the real code with a genesis file that
+    holds an SDK BaseAccount at the CREATE address of a deployer): an account kind without a code hash
+    at a contract creation address.  The deployment succeeds, no code hash can be recorded (the contract
+    never answers), the constructor's storage lands under the address -- the run is not [run_ok], the
+    state is not [evm_wf], the account is not exported and its storage is gone after the re-import. *)
+Theorem C19_evm_base_account_storage_refuted :
+  let v := fun _ : N => true in let nm := fun p : N => p in
+  let auth := base_run.1 in let s := base_run.2 in
+  run_ok toy_hash v nm (∅, mk_evm 0 ∅ ∅) base_ops = false /\
+  ~ evm_wf toy_hash v nm auth s /\
+  auth !! 5%N = Some (KBase, 1000%N) /\
+  evm_export auth s = mk_evmg 0 [mk_ea 1 0 []]%N /\
+  evm_ask auth (EvQCode 5) s = EvAN 0 /\
+  evm_ask auth (EvQStorage 5 0) s = EvAO (Some 42%N) /\
+  (evm_ask auth (EvQStorage 5 0) <$> evm_init toy_hash v nm auth (evm_export auth s)) = Some (EvAO None).
+Proof. exact evm_base_account_storage_refuted_lemma. Qed.
+Print Assumptions C19_evm_base_account_storage_refuted.
